@@ -921,24 +921,82 @@ def unpack_fn(fmt, nbytes):
     return UNPACK[key]
 
 
+INT_CODES = {"b": (1, True), "B": (1, False), "h": (2, True), "H": (2, False), "i": (4, True), "I": (4, False), "l": (4, True), "L": (4, False),
+             "q": (8, True), "Q": (8, False)}
+
+
+def parse_struct_format(fmt):
+    """-> (little_endian, [(code, size)]) for formats with an explicit byte order and integer / float codes (repeat counts expanded)"""
+    if not fmt or fmt[0] not in "<>!=":
+        raise EngineLimit(f"struct format without explicit byte order: {fmt!r}")
+    little = fmt[0] == "<"
+    out, num = [], ""
+    for ch in fmt[1:]:
+        if ch.isdigit():
+            num += ch
+            continue
+        if ch == "x":
+            out += [("x", 1)] * builtins.int(num or 1)
+        elif ch in INT_CODES:
+            out += [(ch, INT_CODES[ch][0])] * builtins.int(num or 1)
+        elif ch in "efd":
+            out += [(ch, {"e": 2, "f": 4, "d": 8}[ch])] * builtins.int(num or 1)
+        elif ch.isspace():
+            continue
+        else:
+            raise EngineLimit(f"struct format code {ch!r}")
+        num = ""
+    return little, out
+
+
 class StructShim:
-    """struct.unpack(fmt, b) for symbolic b is an arbitrary *function* of (fmt, b)."""
+    """struct for symbolic bytes: integer codes are modelled exactly (two's complement, byte order); float codes are an arbitrary
+    *function* of (format, bytes)."""
     error = real_struct.error
     calcsize = staticmethod(real_struct.calcsize)
     pack = staticmethod(real_struct.pack)
 
     @staticmethod
+    def _decode(fmt, items):
+        little, codes = parse_struct_format(fmt)
+        out, pos = [], 0
+        for code, size in codes:
+            chunk = items[pos:pos + size]
+            pos += size
+            if code == "x":
+                continue
+            if code in INT_CODES:
+                signed = INT_CODES[code][1]
+                order = list(reversed(chunk)) if little else chunk
+                word = SymBytes(order).word(8 * size)
+                t = (z3.SignExt if signed else z3.ZeroExt)(W - 8 * size, word)
+                out.append(SymInt(t, nb=8 * size, nonneg=not signed))
+            else:
+                one = ("<" if little else ">") + code
+                word = SymBytes(chunk).word(8 * size)
+                _c().notes.setdefault("unpack_calls", []).append((one, word))
+                out.append(SymReal(unpack_fn(one, size)(word)))
+        return tuple(out)
+
+    @staticmethod
     def unpack(fmt, data):
         if isinstance(data, SymBytes):
-            n = builtins.len(data)
-            if real_struct.calcsize(fmt) != n:
+            if real_struct.calcsize(fmt) != builtins.len(data):
                 raise real_struct.error(f"unpack requires a buffer of {real_struct.calcsize(fmt)} bytes")
-            if fmt.lstrip("<>!=@") not in ("e", "f", "d"):
-                raise EngineLimit(f"struct format {fmt}")
-            word = data.word(8 * n)
-            _c().notes.setdefault("unpack_calls", []).append((fmt, word))
-            return (SymReal(unpack_fn(fmt, n)(word)),)
+            return StructShim._decode(fmt, data.items)
         return real_struct.unpack(fmt, data)
+
+    @staticmethod
+    def unpack_from(fmt, buffer, offset=0):
+        if isinstance(buffer, SymBytes):
+            offset = offset.__index__()
+            size = real_struct.calcsize(fmt)
+            if offset < 0:
+                offset += builtins.len(buffer)
+            if offset < 0 or builtins.len(buffer) - offset < size:
+                raise real_struct.error(f"unpack_from requires a buffer of at least {size + offset} bytes")
+            return StructShim._decode(fmt, buffer.items[offset:offset + size])
+        return real_struct.unpack_from(fmt, buffer, offset)
 
 
 class WarnShim:
@@ -1042,7 +1100,8 @@ def install(width=128):
         _set(mod, "bytes", BytesShim)
         if hasattr(mod, "warnings"):
             _set(mod, "warnings", warn)
-    _set(encodings, "struct", StructShim)
+    for mod in (packets, encodings, comparisons, calibrators, parameter_types, definitions, containers, parameters):
+        _set(mod, "struct", StructShim)
     P = common._Parameter
     lib.real_classes = {n: getattr(common, n) for n in ("IntParameter", "BoolParameter", "FloatParameter", "StrParameter", "BinaryParameter")}
     bases = dict(IntParameter=SymInt, BoolParameter=SymInt, FloatParameter=SymReal, StrParameter=SymStr, BinaryParameter=SymBytes)
